@@ -93,6 +93,8 @@ CONTEXT_LEVEL = {
     "case": L_COND,
     "bitwidth": L_COND,
     "enum_value": L_COND,
+    "qual_array_bound": L_ASSIGN,
+    "offsetof_index": L_COMMA,
 }
 
 MODES = ("minimal", "redundant", "full")
